@@ -498,6 +498,45 @@ def _shape_provenance(cfg, value, at, gparam, depth=0) -> str:
     return "UNKNOWN"
 
 
+def r14_5(run):
+    """a tensor whose array is re-shaped in place may not keep a gradient of the old shape: every store to `<t>.data.shape` is followed,
+    on every path to the function's exit, by a store that restores the old shape or by dropping the gradient"""
+    fx = facts(run)
+    n = 0
+    for fi in run.project.all_functions():
+        stores = [s for s in own_nodes(fi.node) if isinstance(s, ast.Assign) and len(s.targets) == 1 and isinstance(s.targets[0], ast.Attribute)
+                  and s.targets[0].attr == "shape" and norm(s.targets[0].value).endswith(".data")]
+        if not stores:
+            continue
+        recv = norm(stores[0].targets[0].value)[:-len(".data")]
+        for assume_track in (True, False):
+            cfg = build_cfg(run, fi, switch_assumptions(fi, track=assume_track))
+            olds = {assigned_name(s) for s in own_nodes(fi.node) if isinstance(s, ast.Assign) and assigned_name(s) and norm(s.value) in (f"{recv}.shape", f"{recv}.data.shape")}
+            safe = {cfg.node_for(s) for s in stores if isinstance(s.value, ast.Name) and s.value.id in olds}
+            safe |= {cfg.stmt_node_containing(c) for c in calls_named(fi.node, "null_grad") if norm(c.func.value) == recv}
+            safe |= {cfg.node_for(s) for s in own_nodes(fi.node) if isinstance(s, ast.Assign) and any(norm(t) == f"{recv}._grad" for t in s.targets) and is_none_value(s.value)}
+            safe.discard(None)
+            for s in stores:
+                ns = cfg.node_for(s)
+                if ns is None or not cfg.reachable(ns) or ns in safe:
+                    continue
+                n += 1
+                bad = None
+                for succ in cfg.g.successors(ns):
+                    if succ in (RAISE,) or "exc" in cfg.g[ns][succ]["kinds"] and len(cfg.g[ns][succ]["kinds"]) == 1:
+                        continue
+                    if succ in safe:
+                        continue
+                    w = cfg.all_paths_hit(succ, safe, exits=(EXIT,)) if succ != EXIT else [ns, EXIT]
+                    if w is not None:
+                        bad = w
+                run.ob("R14.5", loc(fi, s), fi.short, f"[TRACK_GRAPH={'T' if assume_track else 'F'}] `{norm(s)}` is followed by a restore of the old shape or by dropping {recv}'s gradient",
+                       bad is None, "every path from the store to the exit passes `.data.shape = <old shape>` / null_grad()" if bad is None else
+                       f"{recv} is re-shaped in place while it may hold a gradient of the old shape: afterwards {recv}.grad.shape != {recv}.shape",
+                       path=cfg.path_text(bad) if bad else None)
+    run.count("in-place re-shapes of a tensor's array", n)
+
+
 def check(run):
     run.rule("R14.1", "closed set of writers of Tensor._grad (and of wholesale __dict__ copies)", floor=10)
     run.rule("R14.2", "seed: dtype=self.dtype / *_like(self.data); stored only after the shape test is false; mismatch raises before any store", floor=6)
@@ -507,3 +546,5 @@ def check(run):
     r14_1(run)
     r14_2(run)
     r14_3(run)
+    run.rule("R14.5", "an in-place change of a tensor's array shape restores it or drops the tensor's gradient", floor=2)
+    r14_5(run)
